@@ -114,6 +114,36 @@ def real_fields(cls: str) -> set[str]:
     return out
 
 
+def infer_field_type(cls: str, name: str):
+    """A field the heap model does not list (added by a change to the code): when the class's __init__ initialises it
+    with an int / bool / str literal its type is evident and the field joins the model for this run; anything else stays
+    out of reach."""
+    try:
+        mi = S.load_module(CLASS_MODULE[cls])
+    except (KeyError, S.SourceError):
+        return None
+    node = mi.classes.get(cls)
+    if node is None:
+        return None
+    for item in node.body:
+        if isinstance(item, ast.FunctionDef) and item.name == "__init__":
+            for n in ast.walk(item):
+                tgt = val = None
+                if isinstance(n, ast.Assign) and len(n.targets) == 1:
+                    tgt, val = n.targets[0], n.value
+                elif isinstance(n, ast.AnnAssign) and n.value is not None:
+                    tgt, val = n.target, n.value
+                if (isinstance(tgt, ast.Attribute) and isinstance(tgt.value, ast.Name) and tgt.value.id == "self" and tgt.attr == name
+                        and isinstance(val, ast.Constant)):
+                    if isinstance(val.value, bool):
+                        return "bool"
+                    if isinstance(val.value, int):
+                        return "int"
+                    if isinstance(val.value, str):
+                        return "str"
+    return None
+
+
 def check_schema() -> list[str]:
     """Differences between SCHEMA and the real classes: fields in the source that the model does not know."""
     problems = []
